@@ -274,6 +274,114 @@ def suite_tables(report, names, prop):
                                        [f"table name={n}", "# impl:  " + a, "# model: " + b], has_input=False))
 
 
+
+PROP_KIND = {1: "b", 36: "b", 37: "b", 23: "b", 25: "b", 40: "b", 41: "b", 42: "b", 19: "h", 33: "h", 34: "h", 35: "h",
+             2: "w", 17: "w", 24: "w", 39: "w", 11: "v", 3: "s", 8: "s", 9: "s", 18: "s", 21: "s", 22: "s", 26: "s", 28: "s", 31: "s", 38: "p"}
+
+
+def _vli_read(b, i):
+    val, mult = 0, 1
+    for k in range(4):
+        if i + k >= len(b):
+            return None, i
+        d = b[i + k]
+        val += (d & 0x7F) * mult
+        mult *= 128
+        if d < 0x80:
+            return val, i + k + 1
+    return None, i
+
+
+def _vli(n):
+    out = bytearray()
+    while True:
+        d, n = n % 128, n // 128
+        out.append(d | (0x80 if n else 0))
+        if not n:
+            return bytes(out)
+
+
+def property_mutants(pkt):
+    """well-formed MQTT 5 packet -> packets with a doctored property section (fixed header and property length consistent)"""
+    first = pkt[0]
+    rl, i = _vli_read(pkt, 1)
+    if rl is None or i + rl != len(pkt):
+        return []
+    body = pkt[i:]
+    t = first >> 4
+    # offset of the property length inside the body
+    if t == 2:
+        off = 2
+    elif t == 3:
+        if len(body) < 2:
+            return []
+        off = 2 + ((body[0] << 8) | body[1]) + (2 if (first >> 1) & 3 else 0)
+    elif t in (4, 5, 6, 7):
+        off = 3
+    elif t in (9, 11):
+        off = 2
+    elif t in (14, 15):
+        off = 1
+    else:
+        return []
+    if off >= len(body):
+        return []
+    pl, j = _vli_read(body, off)
+    if pl is None or j + pl > len(body):
+        return []
+    props, k, raw = [], j, body[j:j + pl]
+    while k < j + pl:
+        pid = body[k]
+        kind = PROP_KIND.get(pid)
+        st = k
+        k += 1
+        if kind == "b":
+            k += 1
+        elif kind == "h":
+            k += 2
+        elif kind == "w":
+            k += 4
+        elif kind == "v":
+            v, k2 = _vli_read(body, k)
+            if v is None:
+                return []
+            k = k2
+        elif kind == "s":
+            k += 2 + ((body[k] << 8) | body[k + 1]) if k + 1 < len(body) else 99999
+        elif kind == "p":
+            for _ in range(2):
+                k += 2 + ((body[k] << 8) | body[k + 1]) if k + 1 < len(body) else 99999
+        else:
+            return []
+        if k > j + pl:
+            return []
+        props.append(body[st:k])
+    head, tail = body[:off], body[j + pl:]
+
+    def build(plist, pl_delta=0):
+        sect = b"".join(plist)
+        nb = head + _vli(max(len(sect) + pl_delta, 0)) + sect + tail
+        return bytes([first]) + _vli(len(nb)) + nb
+    out = []
+    for n, p in enumerate(props):
+        rest = props[:n] + props[n + 1:]
+        out.append(build(props + [p]))                                   # duplicated
+        out.append(build(rest + [p[:-1]]))                               # value one byte short (the section ends inside it)
+        out.append(build(rest + [p[:1]]))                                # identifier only
+        if PROP_KIND[p[0]] in "sp":
+            out.append(build(rest + [p[:1] + b"\xff\xff" + p[3:]]))     # length prefix beyond the section
+            out.append(build(rest + [p[:1] + b"\x00\x00"] + ([b""] if PROP_KIND[p[0]] == "s" else [])))
+        if PROP_KIND[p[0]] == "b":
+            out.append(build(rest + [p[:1] + b"\x02"]))                  # a flag that is neither 0 nor 1
+    for alien in (1, 2, 3, 8, 9, 11, 17, 18, 19, 21, 22, 23, 24, 25, 26, 28, 31, 33, 34, 35, 36, 37, 38, 39, 40, 41, 42, 0, 4, 127, 128):
+        kind = PROP_KIND.get(alien, "b")
+        val = {"b": b"\x01", "h": b"\x00\x01", "w": b"\x00\x00\x00\x01", "v": b"\x01", "s": b"\x00\x01a", "p": b"\x00\x01k\x00\x01v"}[kind]
+        out.append(build(props + [bytes([alien]) + val]))                 # a property of another packet type (or of none)
+    out.append(build(props, 1))
+    out.append(build(props, -1))
+    return out
+
+
 def suite_decode(report, tier, seed, prop="C03"):
     """(1) faithfulness: reference-encoded server packets are decoded to exactly their content, for
     every chunking; (2) hostile streams: no panic, same packets and verdict for every chunking;
@@ -318,6 +426,19 @@ def suite_decode(report, tier, seed, prop="C03"):
         mx = rng.choice([0, 0, 0, 2, 5, 16, 128, len(data), max(len(data) - 1, 1), 268435455])
         streams.append((base[0], mx, data, None, "mutated"))
         report.count("decode.hostile")
+    # property-section surgery on well-formed MQTT 5 packets: every property duplicated, truncated, given a zero-length or
+    # over-long value, replaced by an identifier the packet type does not allow, the property length one off - the error
+    # branches of the property decoders, one by one (a source-coverage measurement showed the random mutations rarely get there)
+    nprop = 0
+    for s in valid_pool:
+        if s[0] != 5 or not s[3] or len(s[3]) != 1 or len(s[2]) > 300:
+            continue
+        for mutant in property_mutants(s[2]):
+            if nprop >= (400 if tier == "quick" else 20000):
+                break
+            streams.append((5, 0, mutant, None, "props"))
+            report.count("decode.property-surgery")
+            nprop += 1
     # length-field nudges: in a well-formed packet, every two bytes that could be a length prefix (their value fits in what
     # follows) are moved to 1..3 more than their value, and to 1..2 more than what is left of the packet, with the fixed
     # header untouched - the frame stays self-consistent, so the packet decoder itself has to notice
